@@ -176,11 +176,13 @@ def gen_workflow(rng: random.Random, opts=None):
         # limit on the default queue
         qlines = []
         if rng.random() < opts.get('p_default_limit', 0.4):
-            qlines.append(f'        [[[default]]]\n            limit = {rng.choice([1, 2, 3])}\n')
+            qlines.append(f'        [[[default]]]\n            limit = '
+                          f'{rng.choice(opts.get("default_queue_limits") or [1, 2, 3])}\n')
         pool_names = sorted(mentioned)
         for qi in range(rng.randint(1, 3)):
             mem = rng.sample(pool_names, rng.randint(1, len(pool_names)))
-            qlines.append(f'        [[[q{qi}]]]\n            limit = {rng.choice([1, 1, 2, 3])}\n'
+            # (C03Q, additive: option queue_limits / default_queue_limits = the limits to draw from; same draws)
+            qlines.append(f'        [[[q{qi}]]]\n            limit = {rng.choice(opts.get("queue_limits") or [1, 1, 2, 3])}\n'
                           f'            members = {", ".join(mem)}\n')
         queues_txt = '    [[queues]]\n' + ''.join(qlines)
         # a wider runahead window: several cycles compete for the same queue
@@ -259,7 +261,12 @@ def gen_policy(rng, wf, kind='complete', opts=None):
         if opts.get('restarts') is not None:
             choices = list(opts['restarts'])
             pol['restarts'] = choices[pol['restarts'] % len(choices)]
-    if kind in ('cmdq', 'cmdqc'):
+    if kind in ('qf', 'cmdqf'):
+        # C03Q (additive; new kinds, applied after all draws): every task may fail / skip custom outputs, so that
+        # finished-but-incomplete tasks stay in the pool while other members of their queue are queued
+        for oc in outcomes.values():
+            oc['p_fail'] = max(oc['p_fail'], 0.3)
+    if kind in ('cmdq', 'cmdqc', 'cmdqf'):
         # C05S (additive; applied after all draws): holds / releases (often of a task that sits in a queue), hold
         # point, pause, stop + restart over workflows with limited queues ('cmdqc': complete outcomes)
         pol['cmds'] = ['hold', 'release', 'hold', 'release', 'hold', 'release', 'set_hold_point', 'release_hold_point',
@@ -342,6 +349,11 @@ def gen_case(seed: int, kind='complete', opts=None):
         # C05S (additive): the queue kinds generate workflows with limited internal queues
         # ('qc' complete outcomes, 'qa' failures / noise, 'cmdq' / 'cmdqc' with holds and stop + restart)
         opts = dict(opts or {}, queues=True)
+    if kind in ('qf', 'cmdqf'):
+        # C03Q (additive): queues with limits 1-2, no retries, mostly required success, any outcomes
+        # ('qf' intervention-free, 'cmdqf' with holds / pause / stop point / stop + restart as 'cmdq')
+        opts = dict({'queue_limits': [1, 1, 2], 'default_queue_limits': [1, 2], 'retries': False, 'p_optfail': 0.12,
+                     'p_default_limit': 0.5}, **(opts or {}), queues=True)
     wf = gen_workflow(rng, opts)
     case = {'id': f'{kind}{seed}', 'flow': wf['flow'], 'seed': seed, 'opts': wf['opts'],
             'policy': gen_policy(rng, wf, kind, opts), 'ops': None, 'kind': kind}
